@@ -34,30 +34,34 @@ MkCfg(g, f, h) ==
   N([k \in ks |-> CASE k = "g" -> g [] k = "f" -> f [] k = "h" -> h], <<>>)
 
 
-VARIABLES ty, vs, cs
-vars == <<ty, vs, cs>>
-Out(D, old, cfg) == Unpack(ty, vs, old, cfg, D)
+VARIABLES ty, vs, pol, cs
+vars == <<ty, vs, pol, cs>>
+Out(D, old, cfg) == Unpack(ty, vs, old, cfg, D, pol)
 Case(old, fv, gvv, hv) ==
   LET cfg   == MkCfg(gvv, fv, hv)
       ideal == Out({}, old, cfg)
       alts  == {[devs |-> DS, out |-> Out(DS, old, cfg)] : DS \in DevSets}
       diff  == {x \in alts : x.out # ideal}
-  IN [ty |-> ty, vs |-> vs, old |-> old, cfg |-> cfg, exp |-> [ideal |-> ideal, alts |-> SetToSeq(diff)]]
+  IN [ty |-> ty, vs |-> vs, pol |-> pol, old |-> old, cfg |-> cfg, exp |-> [ideal |-> ideal, alts |-> SetToSeq(diff)]]
 Init == ty \in Tys /\ vs \in VSets /\ cs = <<>>
-Next == /\ cs = <<>> /\ UNCHANGED <<ty, vs>>
+        /\ pol \in (IF ty \in {"LI", "LS"} THEN {"default", "append", "prepend", "replace"} ELSE {"default"})
+Next == /\ cs = <<>> /\ UNCHANGED <<ty, vs, pol>>
         /\ \E old \in Olds(ty), fv \in FVals, gvv \in GVals, hv \in HVals :
               cs' = <<old, fv, gvv, hv>> /\ PrintT(ToJson(Case(old, fv, gvv, hv)))
-View == <<ty, vs, cs = <<>> >>
+View == <<ty, vs, pol, cs = <<>> >>
 
 (* ---- model-level statements (MC runs bind Dev through Groups: Known) ------------------- *)
-Res == Unpack(ty, vs, cs[1], MkCfg(cs[3], cs[2], cs[4]), Known)
+Res == Unpack(ty, vs, cs[1], MkCfg(cs[3], cs[2], cs[4]), Known, pol)
 \* C04: a successful Unpack returns only validated values
 OkIsValid == cs # <<>> => (IsOk(Res) => ValidRes(ty, vs, Res.ok.f))
 \* C13: fields without a setting keep their value, fields with one take it
 Frame == cs # <<>> => (IsOk(Res) =>
            /\ Res.ok.g = (IF cs[3] = None THEN IntV(1) ELSE IntV(cs[3].i))
            /\ Res.ok.h = (IF cs[4] = None THEN IntV(1) ELSE IntV(cs[4].i))
-           /\ (IsNilC(cs[2]) => Res.ok.f = cs[1] \/ ty \in {"S"} ))
+           /\ (IsNilC(cs[2]) => Res.ok.f = cs[1] \/ ty \in {"S"} )
+           \* lists combine by the active policy: lengths
+           /\ (ty \in {"LI", "LS"} /\ ~IsNilC(cs[2]) /\ pol \in {"append", "prepend"} =>
+                 Len(Res.ok.f.xs) = Len(cs[1].xs) + Len(CastArr(cs[2]))))
 \* C14: an error names a path below the setting at fault; nothing panics
 ErrNamesSetting == cs # <<>> => (~IsOk(Res) =>
            /\ "panic" \notin DOMAIN Res
